@@ -52,7 +52,6 @@ import (
 	"k8s.io/client-go/tools/cache"
 	"k8s.io/client-go/tools/record"
 	"k8s.io/client-go/util/workqueue"
-	nodeutil "k8s.io/component-helpers/node/util"
 	"k8s.io/klog/v2"
 	netutil "k8s.io/utils/net"
 )
@@ -859,11 +858,16 @@ func (r *multiCIDRRangeAllocator) updateCIDRsAllocation(logger klog.Logger, data
 		}
 
 		// If we reached here, it means that the node has no CIDR currently assigned. So we set it.
+		// A write that timed out may have been applied: remember it across the attempts.
+		ambiguous := false
 		for i := 0; i < cidrUpdateRetries; i++ {
-			if err = nodeutil.PatchNodeCIDRs(r.client, types.NodeName(node.Name), cidrsString); err == nil {
+			if err = controllerutil.PatchNodeCIDRs(r.client, types.NodeName(node.Name), cidrsString); err == nil {
 				data.clusterCIDR.AssociatedNodes[node.Name] = true
 				logger.Info("Set node PodCIDR", "node", klog.KObj(node), "podCIDR", cidrsString)
 				return nil
+			}
+			if apierrors.IsServerTimeout(err) || apierrors.IsTimeout(err) {
+				ambiguous = true
 			}
 		}
 		// failed release back to the pool.
@@ -872,7 +876,7 @@ func (r *multiCIDRRangeAllocator) updateCIDRsAllocation(logger klog.Logger, data
 		// We accept the fact that we may leak CIDRs here. This is safer than releasing
 		// them in case when we don't know if request went through.
 		// NodeController restart will return all falsely allocated CIDRs to the pool.
-		if !apierrors.IsServerTimeout(err) {
+		if !ambiguous {
 			logger.Error(err, "CIDR assignment for node failed. Releasing allocated CIDR", "node", klog.KObj(node))
 			for _, cidr := range data.allocatedCIDRs {
 				if err := r.Release(logger, data.clusterCIDR, cidr); err != nil {
